@@ -845,16 +845,18 @@ class SymBool:
         if self.op == 'not': return self.a.atoms()
         return self.a.atoms() + self.b.atoms()
 
-    def evalf(self, val, tol=0):
+    def evalf(self, val, tol=0, eq_only=False):
+        """eq_only: the tolerance applies to equalities only; inequalities are evaluated as they stand (a sample with z = 0 must not
+        pass for the assumed fact z >= eps^4 because eps^4 is below the tolerance)"""
         if self.op in ('gt', 'ge', 'eq'):
             x = self.a.evalf(val)
             if x != x: raise ValueError("condition depends on a value that is undefined at this point")
-            if self.op == 'gt': return x > tol
-            if self.op == 'ge': return x >= -tol
+            if self.op == 'gt': return x > (0 if eq_only else tol)
+            if self.op == 'ge': return x >= (0 if eq_only else -tol)
             return abs(x) <= tol
-        if self.op == 'not': return not self.a.evalf(val, tol)
-        if self.op == 'and': return self.a.evalf(val, tol) and self.b.evalf(val, tol)
-        return self.a.evalf(val, tol) or self.b.evalf(val, tol)
+        if self.op == 'not': return not self.a.evalf(val, tol, eq_only)
+        if self.op == 'and': return self.a.evalf(val, tol, eq_only) and self.b.evalf(val, tol, eq_only)
+        return self.a.evalf(val, tol, eq_only) or self.b.evalf(val, tol, eq_only)
 
     def __repr__(self):
         if self.op == 'gt': return f'[{self.a!r} > 0]'
